@@ -1009,8 +1009,11 @@ func TestVerif_C21(t *testing.T) {
 	nTurns := venum.QT(3, 4)
 	nKinds := venum.QT(3, 4)
 	venum.Explore(t, venum.Cfg{Name: "exchange-histories", Shardable: true, DevBound: venum.QT(1, 2)}, func(x *venum.X) {
-		var kinds []string
-		for i := 0; i < nTurns; i++ {
+		// the first choice point carries the first two turns so that its arity (9 / 16) keeps all
+		// worker shards busy (shards deal out the alternatives of the first point)
+		c := x.Choose(nKinds*nKinds, "turn1+turn2")
+		kinds := []string{vfC21TurnKinds[c/nKinds], vfC21TurnKinds[c%nKinds]}
+		for i := 2; i < nTurns; i++ {
 			kinds = append(kinds, vfC21TurnKinds[x.Choose(nKinds, fmt.Sprintf("turn%d", i+1))])
 		}
 		compress := !x.Bool("server-compression-off")
